@@ -108,18 +108,20 @@ func gid() int64 {
 	return id
 }
 
-func (r *recorder) lock(g int64) {
-	if r.holder.Load() == g {
-		return
+// acquire takes the log mutex unless this goroutine already holds it across a bracket.
+func (r *recorder) acquire(g int64) {
+	if r.holder.Load() != g {
+		r.mu.Lock()
+		r.holder.Store(g)
 	}
-	r.mu.Lock()
 }
 
-func (r *recorder) unlock(g int64) {
+// release ends a bracket / a plain event.
+func (r *recorder) release(g int64) {
 	if r.holder.Load() == g {
 		r.holder.Store(0)
+		r.mu.Unlock()
 	}
-	r.mu.Unlock()
 }
 
 // add appends under the lock (the caller holds it).
@@ -161,101 +163,96 @@ func (r *recorder) sched(kind string, a, b int64, ch any) {
 // linearisation. Blocking operations are logged before (send) or after (receive) they happen.
 func (r *recorder) sink(point string, args ...any) {
 	g := gid()
+	held := r.holder.Load() == g
+	if strings.HasPrefix(point, "yield:") && !held {
+		r.delay(strings.TrimPrefix(point, "yield:mt:"))
+	}
+	r.acquire(g)
+	keep := false // keep the mutex: this hook opens a bracket around the next atomic operation
 	switch point {
 	case "yield:mt:pre-inc":
-		r.delay("pre-inc")
-		r.mu.Lock()
-		r.holder.Store(g)
+		keep = true
 	case "mt:begin":
-		if r.holder.Load() == g { // high priority: closes the bracket around its own increment
+		if held { // high priority: closes the bracket around its own increment
 			r.add(rawEv{g: g, kind: "hinc", a: cntNow()})
-			r.add(rawEv{g: g, kind: "begin"})
-			r.unlock(g)
-		} else {
-			r.mu.Lock()
-			r.add(rawEv{g: g, kind: "begin"})
-			r.mu.Unlock()
 		}
+		r.add(rawEv{g: g, kind: "begin"})
 	case "mt:timeout-enqueue":
 		r.add(rawEv{g: g, kind: "tmoenq", a: cntNow()})
-		r.unlock(g)
 	case "mt:timeout-wait":
-		r.mu.Lock()
 		r.add(rawEv{g: g, kind: "tmowait"})
-		r.mu.Unlock()
 	case "mt:submit":
-		r.mu.Lock()
-		e := rawEv{g: g, kind: "submit", ch: args[1]}
-		if s, _ := args[0].(string); s == "l" {
-			e.a = 1
+		e := rawEv{g: g, kind: "submit"}
+		if len(args) == 2 {
+			e.ch = args[1]
+			if s, _ := args[0].(string); s == "l" {
+				e.a = 1
+			}
 		}
 		r.add(e)
-		r.mu.Unlock()
 	case "yield:mt:conclude":
-		r.delay("conclude")
-		r.mu.Lock()
-		r.holder.Store(g)
 		r.add(rawEv{g: g, kind: "moddec"})
+		keep = true
 	case "mt:concluded":
 		c := cntNow()
 		if c < 0 {
 			r.dips++
 		}
 		r.add(rawEv{g: g, kind: "dec", a: c})
-		r.unlock(g)
+		r.release(g)
 		r.delay("concluded")
-		r.mu.Lock()
-		r.holder.Store(g)
+		r.acquire(g) // bracket around the non-blocking token send
+		keep = true
 	case "mt:token":
 		r.toks++
 		e := rawEv{g: g, kind: "tok"}
-		if b, _ := args[0].(bool); b {
-			e.a = 1
+		if len(args) == 1 {
+			if b, _ := args[0].(bool); b {
+				e.a = 1
+			}
 		}
 		r.add(e)
-		r.unlock(g)
 	case "yield:mt:sched-loop":
-		r.delay("sched-loop")
-		r.mu.Lock()
-		r.holder.Store(g)
 		if r.lastSched == "space" {
 			r.sched("other", 0, 0, nil)
 		}
+		keep = true
 	case "mt:sched-shutdown":
 		r.sched("shut", 0, 0, nil)
-		r.unlock(g)
 	case "mt:sched-space", "mt:sched-full":
 		c, l := modules.VerifMicroTasks()
 		r.sched(strings.TrimPrefix(point, "mt:sched-"), int64(c), int64(l), nil)
-		r.unlock(g)
 	case "mt:sched-grant":
-		r.mu.Lock()
-		r.sched("grant", 0, 0, args[0])
-		r.mu.Unlock()
+		var ch any
+		if len(args) == 1 {
+			ch = args[0]
+		}
+		r.sched("grant", 0, 0, ch)
 	case "yield:mt:sched-granted":
-		r.delay("sched-granted")
-		r.mu.Lock()
-		r.holder.Store(g)
+		keep = true
 	case "mt:sched-counted":
 		r.sched("count", cntNow(), 0, nil)
-		r.unlock(g)
 	case "mt:sched-woken":
-		r.mu.Lock()
 		r.sched("woken", 0, 0, nil)
-		r.mu.Unlock()
 	case "mt:sched-tick":
-		r.mu.Lock()
 		r.sched("tick", 0, 0, nil)
-		r.mu.Unlock()
+	}
+	if !keep {
+		r.release(g)
 	}
 }
 
 // h logs a harness-side observation.
 func (r *recorder) h(kind string, tid int, a int64) {
 	g := gid()
-	r.mu.Lock()
+	held := r.holder.Load() == g
+	if !held {
+		r.mu.Lock()
+	}
 	r.add(rawEv{g: g, kind: "h:" + kind, tid: tid, a: a})
-	r.mu.Unlock()
+	if !held {
+		r.mu.Unlock()
+	}
 }
 
 // ---------------------------------------------------------------------------------------------
@@ -336,6 +333,7 @@ func waitParked(max time.Duration, wantToks int) error {
 type runResult struct {
 	evs      []rawEv
 	startSch string
+	hang     bool
 	startFin int
 	settle   error
 	finalCnt int64
@@ -497,16 +495,23 @@ func runScenario(sc *scenario) *runResult {
 						n = 1
 					}
 					if t.Conc && n > 1 {
-						var dw sync.WaitGroup
+						// all callers are released together, so that their CAS on doneCalled really race
+						var dw, ready sync.WaitGroup
+						gate := make(chan struct{})
 						for k := 0; k < n; k++ {
 							dw.Add(1)
+							ready.Add(1)
 							go func() {
 								defer dw.Done()
 								rec.h("donecall", tid, 0)
+								ready.Done()
+								<-gate
 								done()
 								rec.h("doneret", tid, 0)
 							}()
 						}
+						ready.Wait()
+						close(gate)
 						dw.Wait()
 					} else {
 						for k := 0; k < n; k++ {
@@ -536,10 +541,21 @@ func runScenario(sc *scenario) *runResult {
 			}
 		}()
 	}
-	wg.Wait()
-	fnWg.Wait()
-	res.settle = waitParked(5*time.Second, wantToks)
-	res.parkedMs = parkedNoToken.Milliseconds()
+	allDone := make(chan struct{})
+	go func() {
+		wg.Wait()
+		fnWg.Wait()
+		close(allDone)
+	}()
+	select {
+	case <-allDone:
+		res.settle = waitParked(5*time.Second, wantToks)
+		res.parkedMs = parkedNoToken.Milliseconds()
+	case <-time.After(20 * time.Second):
+		// some call never returned (e.g. nothing is admitted any more): report, the process state is lost
+		res.hang = true
+		res.settle = errors.New("hang")
+	}
 	if shutDone != nil {
 		select {
 		case <-shutDone:
@@ -760,6 +776,9 @@ func canon(sc *scenario, res *runResult) []string {
 	if res.settle != nil {
 		settle = strings.ReplaceAll(res.settle.Error(), " ", "_")
 	}
+	if res.hang {
+		lines = append(lines, "h hang -1 0")
+	}
 	lines = append(lines, fmt.Sprintf("h final %d %s settle=%s parkedms=%d shutms=%d status:%s", res.finalCnt, strings.Join(ms, ","),
 		settle, res.parkedMs, res.shutMs, strings.ReplaceAll(res.status, " ", ";")))
 	lines = append(lines, fmt.Sprintf("end %d %d", res.finalCnt, modSum))
@@ -817,6 +836,7 @@ const (
 	sigWake     = "C15:scheduler-left-waiting-without-token"
 	sigStop     = "C15:shutdown-held-up-after-all-finished"
 	sigCrash    = "C15:start-variant-on-nil-module-crashes-the-process"
+	sigHang     = "C15:submitted-microtasks-never-returned"
 )
 
 func effDelay(t taskSpec) time.Duration {
@@ -869,6 +889,9 @@ func monitor(c hxlib.Case, outs []string) []hxlib.Violation {
 		f := strings.Fields(l)
 		if f[1] == "crash" {
 			return []hxlib.Violation{{Sig: sigCrash, What: "the process running the scenario died: " + strings.Join(f[4:], " "), Lines: c.Lines}}
+		}
+		if f[1] == "hang" {
+			return []hxlib.Violation{{Sig: sigHang, What: "20 s after submission not all microtask calls had returned (max delays of one hour: nothing was admitted any more)", Lines: c.Lines}}
 		}
 		if f[1] == "final" {
 			cnt, _ := strconv.ParseInt(f[2], 10, 64)
@@ -1023,6 +1046,9 @@ func genScenario(r *hxlib.Run, class string) *scenario {
 		if t.Var == 2 {
 			t.Dones = 1 + rng.Intn(4)
 			t.Conc = rng.Intn(2) == 0
+			if t.Conc {
+				t.Dones = 2 + rng.Intn(7)
+			}
 		}
 		sc.Tasks = append(sc.Tasks, t)
 	}
@@ -1154,7 +1180,9 @@ var childMode = os.Getenv("HX_C15_CHILD") != ""
 
 func runInChild(sc *scenario) ([]string, error) {
 	b, _ := json.Marshal(sc)
-	cmd := exec.Command(os.Args[0])
+	ctx, cancel := context.WithTimeout(context.Background(), 90*time.Second)
+	defer cancel()
+	cmd := exec.CommandContext(ctx, os.Args[0])
 	cmd.Env = append(os.Environ(), "HX_C15_CHILD="+string(b))
 	cmd.Stderr = nil
 	var eb strings.Builder
@@ -1220,7 +1248,11 @@ func gen(r *hxlib.Run, emit func(hxlib.Case)) {
 		emit(hxlib.Case{Lines: []string{"boot-failed " + err.Error()}, Kind: "boot"})
 		return
 	}
+	stop := false
 	emitScn := func(sc *scenario) {
+		if stop {
+			return
+		}
 		var lines []string
 		if sc.Class == "shutdown" || sc.Class == "nilstart" {
 			var err error
@@ -1230,7 +1262,16 @@ func gen(r *hxlib.Run, emit func(hxlib.Case)) {
 				lines = []string{"scn " + string(b), "h crash -1 0 " + strings.ReplaceAll(err.Error(), " ", "_")}
 			}
 		} else {
-			lines = canon(sc, runScenario(sc))
+			res := runScenario(sc)
+			lines = canon(sc, res)
+			if res.hang || res.settle != nil || res.finalCnt != 0 {
+				stop = true // the process-global scheduler state is off: later scenarios would only echo this one
+			}
+			for _, v := range res.finalMod {
+				if v != 0 {
+					stop = true
+				}
+			}
 		}
 		count(r, sc, lines)
 		grants := 0
@@ -1256,7 +1297,7 @@ func gen(r *hxlib.Run, emit func(hxlib.Case)) {
 	floods := r.Budget(1, 4)
 	shutdowns := r.Budget(25, 200)
 	nilstarts := r.Budget(6, 40)
-	for i := 0; i < nScn && time.Now().Before(deadline); i++ {
+	for i := 0; i < nScn && time.Now().Before(deadline) && !stop; i++ {
 		class := "noexpiry"
 		switch x := r.Rng.Intn(100); {
 		case x < 12:
